@@ -28,7 +28,7 @@ EXPLANATION = (
 NOT_DECIDED = ["pickle round trip (delegated to Python's pickle over the same classes)",
                "that index renumbering after subset yields contiguous indices (run-time list arithmetic)"]
 ASSUMPTIONS = ["Atom objects are usable as dict keys for old->new maps (Atom.__hash__ = index)"]
-FLOORS = {"C04-R1": 30, "C04-R2": 5, "C04-R3": 6, "C04-R5": 5, "C04-R6": 3, "C04-R7": 3, "C04-R8": 6}
+FLOORS = {"C04-R1": 30, "C04-R2": 5, "C04-R3": 6, "C04-R5": 5, "C04-R6": 3, "C04-R7": 3, "C04-R8": 6, "C04-R9": 8}
 
 TOP = "mdtraj/core/topology.py"
 H5 = "mdtraj/formats/hdf5.py"
@@ -79,6 +79,10 @@ def check(ctx):
     r3_order_insensitive_hash(ctx)
     ctx.rule("C04-R8", "copy / subset / join / _topology_from_subset never return their input; chains and residues are renumbered after the empty ones were removed")
     r8_fresh_and_renumbered(ctx)
+    r9_rebuilders_by_evaluation(ctx)
+    ctx.rule("C04-R9", "copy / subset / join evaluated on a model topology built through the class's own add_* methods (the classes Topology, Chain, Residue, Atom are "
+                       "instantiated from their source): the result has exactly the chains, residues, atoms and bonds the operation calls for, every preserved field "
+                       "(chain_id, name, resSeq incl. 0, segment_id, element, serial incl. 0, bond type and order) carried over, indices renumbered, and shares no object with its input")
     ctx.rule("C04-R7", "the atom number written in CONECT is produced by the same scheme as the serial on ATOM (same use of atom.serial, same counter start and TER increments)")
     sigs = {k: _sig(ctx, k) for k in REQUIRED}
 
@@ -789,3 +793,164 @@ def r1_element_identity(ctx):
         ok = all(nm == row.get("name") or alias.get(row.get("name")) == nm for nm, row in table)
     ctx.decide(ok, "C04-R1", red, EL, "Element.__reduce__", "elements are re-created from `%s`, which is unique in the table of %d elements" % (", ".join(used), len(table)), "",
                "the key `%s` does not tell the elements apart (%s): a deep-copied or unpickled topology has the first element registered under that key in place of the original" % (", ".join(used), [k for k in dup][:3] if dup else "module attribute and name differ"))
+
+
+# -------------------------------------------------------------------------------------------------
+def r9_rebuilders_by_evaluation(ctx):
+    from ..tensym import TenSym, Obj, Raised
+    from ..pysym import Unsupported as PUnsupported
+    mod = ctx.py.mod(TOP)
+    classes = {n.name: n for n in mod.tree.body if isinstance(n, ast.ClassDef) and n.name in ("Topology", "Chain", "Residue", "Atom")}
+    funcs = {n.name: n for n in mod.tree.body if isinstance(n, ast.FunctionDef)}
+    if set(classes) != {"Topology", "Chain", "Residue", "Atom"}:
+        raise AnalysisError("topology.py: classes Topology / Chain / Residue / Atom not all found")
+
+    def bond_model(ev, call):
+        # Bond is a namedtuple subclass: (atom1, atom2) with the attributes type and order
+        args = [ev.ex(a) for a in call.args]
+        kw = {k.arg: ev.ex(k.value) for k in call.keywords}
+        a1, a2 = args[0], args[1]
+        return Obj(tag="bond", _isa=("Bond",), atom1=a1, atom2=a2, type=kw.get("type", args[2] if len(args) > 2 else None), order=kw.get("order", args[3] if len(args) > 3 else None),
+                   _iter=lambda: [a1, a2], _getitem=lambda s_, k: [a1, a2][k])
+
+    def evaluator():
+        ts = TenSym({"elem": Obj(virtual=Obj(symbol="VS", tag="virtual"))}, funcs=funcs,
+                    models={"Bond": bond_model, "ilen": lambda ev, c: len(ev.iterate(ev.ex(c.args[0]))), "warnings.warn": lambda ev, c: None})
+        ts.classes = classes
+        return ts
+
+    def call(ts, o, m, *args, **kw):
+        f = o._methods[m]
+        pn = [a.arg for a in f.args.args][1:]
+        given = {"self": o}
+        given.update(dict(zip(pn, args)))
+        given.update(kw)
+        return TenSym(ts.globals_env(), funcs=funcs, parent=ts).run_fn(f, **given)
+    EL = {s_: Obj(symbol=s_, name=s_, tag="element " + s_) for s_ in ("N", "C", "O", "H", "Na")}
+    SINGLE, DOUBLE = Obj(tag="Single"), Obj(tag="Double")
+    # (chain_id, [(name, resSeq, segment_id, [(atom name, element, serial)])])
+    SPEC = [("A", [("ALA", 0, "S1", [("N", "N", 0), ("CA", "C", 10)]), ("GLY", 7, "", [("N", "N", None)])]),
+            ("X", [("HOH", 5, "W", [("O", "O", 3), ("H1", "H", 4)])]),
+            (None, [("NA", 0, "", [("NA", "Na", 0)])])]
+    BONDS = [(1, 0, SINGLE, 1), (2, 1, None, None), (3, 4, DOUBLE, 2)]      # given with the higher index first where it says so
+
+    def build(ts, spec=SPEC, bonds=BONDS):
+        top = ts.instantiate("Topology", [], {})
+        atoms = []
+        for cid, residues in spec:
+            c = call(ts, top, "add_chain", cid)
+            for (rn, rs, seg, ats) in residues:
+                r = call(ts, top, "add_residue", rn, c, rs, seg)
+                for (an, el, ser) in ats:
+                    atoms.append(call(ts, top, "add_atom", an, EL[el], r, serial=ser))
+        for i, j, ty, od in bonds:
+            call(ts, top, "add_bond", atoms[i], atoms[j], type=ty, order=od)
+        return top
+
+    def signature(top):
+        return ([(c.index, c.chain_id, [(r.index, r.name, r.resSeq, r.segment_id, [(a.index, a.name, a.element.tag, a.serial) for a in r._atoms]) for r in c._residues]) for c in top._chains],
+                sorted((b.atom1.index, b.atom2.index, getattr(b.type, "tag", None), b.order) for b in top._bonds))
+
+    def expected(spec, bonds, keep=None, resseq=None):
+        """signature of the topology with the atoms in `keep` (all when None); resseq: optional {(chain position, residue position): value}"""
+        chains, k_atom, k_res, newidx = [], 0, 0, {}
+        old = 0
+        for ci, (cid, residues) in enumerate(spec):
+            rs_out = []
+            for ri, (rn, rs, seg, ats) in enumerate(residues):
+                as_out = []
+                for (an, el, ser) in ats:
+                    if keep is None or old in keep:
+                        newidx[old] = k_atom
+                        as_out.append((k_atom, an, "element " + el, ser))
+                        k_atom += 1
+                    old += 1
+                if as_out:
+                    rs_out.append((k_res, rn, rs if resseq is None else resseq.get((ci, ri), rs), seg, as_out))
+                    k_res += 1
+            if rs_out:
+                chains.append((len(chains), cid, rs_out))
+        bs = sorted((min(newidx[i], newidx[j]), max(newidx[i], newidx[j]), getattr(ty, "tag", None), od) for i, j, ty, od in bonds if i in newidx and j in newidx)
+        return chains, bs
+
+    def objects(top):
+        out = [top] + list(top._chains) + list(top._residues) + list(top._atoms) + list(top._bonds)
+        for c in top._chains:
+            out += list(c._residues)
+            for r in c._residues:
+                out += list(r._atoms)
+        return out
+
+    def consistent(top):
+        pr = []
+        if [a.index for a in top._atoms] != list(range(len(top._atoms))) or top._numAtoms != len(top._atoms):
+            pr.append("atom k does not carry index k / _numAtoms is %s for %d atoms" % (top._numAtoms, len(top._atoms)))
+        if [r.index for r in top._residues] != list(range(len(top._residues))) or top._numResidues != len(top._residues):
+            pr.append("residue k does not carry index k / _numResidues is %s for %d residues" % (top._numResidues, len(top._residues)))
+        flat = [a for c in top._chains for r in c._residues for a in r._atoms]
+        if len(flat) != len(top._atoms) or any(x is not y for x, y in zip(flat, top._atoms)):
+            pr.append("the atom list is not the atoms of the chains' residues in order")
+        if any(r.chain is not c for c in top._chains for r in c._residues) or any(a.residue is not r for c in top._chains for r in c._residues for a in r._atoms):
+            pr.append("a residue / atom points to another chain / residue than the one that lists it")
+        if any(b.atom1 is not top._atoms[b.atom1.index] or b.atom2 is not top._atoms[b.atom2.index] for b in top._bonds if b.atom1.index < len(top._atoms) and b.atom2.index < len(top._atoms)):
+            pr.append("a bond refers to an atom object that is not in this topology's atom list")
+        return pr
+
+    def decide(desc, fnode, q, thunk, want):
+        try:
+            ts = evaluator()
+            src_top, out = thunk(ts)
+        except Raised as e:
+            ctx.violated("C04-R9", fnode, TOP, q, desc, "the operation raises %s on the model topology" % (e.exc or e))
+            return
+        except PUnsupported as e:
+            ctx.undecided("C04-R9", fnode, TOP, q, desc, "not evaluable: %s" % e)
+            return
+        pr = []
+        if not (isinstance(out, Obj) and "Topology" in getattr(out, "_isa", ())):
+            pr.append("the result is not a Topology")
+        else:
+            got = signature(out)
+            if got != want:
+                def diff(a, b):
+                    for x, y in zip(a[0], b[0]):
+                        if x != y:
+                            return "chain %s: got %s, expected %s" % (x[0], x, y)
+                    if len(a[0]) != len(b[0]):
+                        return "%d chains, expected %d" % (len(a[0]), len(b[0]))
+                    return "bonds %s, expected %s" % (a[1], b[1])
+                pr.append(diff(got, want))
+            pr += consistent(out)
+            for s_ in src_top:
+                shared = [o for o in objects(out) if any(o is x for x in objects(s_))]
+                if shared:
+                    pr.append("the result shares %d object(s) with its input (e.g. %s): editing one topology edits the other" % (len(shared), getattr(shared[0], "tag", shared[0])))
+                    break
+        ctx.decide(not pr, "C04-R9", fnode, TOP, q, desc, "", "; ".join(pr)[:700])
+    fn_copy = ctx.py.func(TOP, "Topology.copy")
+    decide("copy(): same chains, residues, atoms, bonds and fields; no shared object", fn_copy, "Topology.copy",
+           lambda ts: (lambda t: ([t], call(ts, t, "copy")))(build(ts)), expected(SPEC, BONDS))
+    fn_sub = ctx.py.func(TOP, "_topology_from_subset")
+    for keep in ([1, 2, 3], [0, 5], [4, 3, 0], list(range(6))):
+        decide("subset(%s): the atoms kept in topology order, empty residues and chains dropped, indices renumbered, fields and bonds between kept atoms preserved" % keep, fn_sub, "Topology.subset",
+               lambda ts, keep=keep: (lambda t: ([t], call(ts, t, "subset", list(keep))))(build(ts)), expected(SPEC, BONDS, keep=set(keep)))
+    fn_join = ctx.py.func(TOP, "Topology.join")
+    SPEC2 = [("B", [("LYS", 0, "S2", [("N", "N", 0), ("CA", "C", None)])]), ("A", [("HOH", 2, "", [("O", "O", 1)])])]
+    BONDS2 = [(1, 0, DOUBLE, 2)]
+    for keep_resseq in (True, False):
+        last = SPEC[-1][1][-1][1]
+        rs2 = None if keep_resseq else {(0, 0): last + 1, (1, 0): last + 2}
+        w1, w2 = expected(SPEC, BONDS), expected(SPEC2, BONDS2, resseq=rs2)
+        n_a, n_r, n_c = 6, 4, 3
+        joined = (w1[0] + [(ci + n_c, cid, [(ri + n_r, rn, rs, seg, [(ai + n_a, an, el, ser) for ai, an, el, ser in ats]) for ri, rn, rs, seg, ats in rss]) for ci, cid, rss in w2[0]],
+                  sorted(w1[1] + [(i + n_a, j + n_a, ty, od) for i, j, ty, od in w2[1]]))
+        decide("join(other, keep_resSeq=%s): the chains of self followed by those of other, %s, atom indices of other shifted, bonds of both" % (keep_resseq, "resSeq kept" if keep_resseq else "resSeq of other continuing after the last of self"),
+               fn_join, "Topology.join", lambda ts, k=keep_resseq: (lambda a, b: ([a, b], call(ts, a, "join", b, keep_resSeq=k)))(build(ts), build(ts, SPEC2, BONDS2)), joined)
+    try:
+        ts = evaluator()
+        call(ts, build(ts), "join", Obj(tag="not a topology"))
+        ctx.violated("C04-R9", fn_join, TOP, "Topology.join", "join refuses something that is not a Topology", "no error is raised")
+    except Raised as e:
+        ctx.holds("C04-R9", fn_join, TOP, "Topology.join", "join refuses something that is not a Topology", "raises %s" % (e.exc or "")[:40])
+    except PUnsupported as e:
+        ctx.undecided("C04-R9", fn_join, TOP, "Topology.join", "join refuses something that is not a Topology", "not evaluable: %s" % e)
